@@ -7,6 +7,7 @@ seams.py and peer.py.  Observation wrappers (DocTest.run,
 utils.import_module_from_path) call straight through.
 """
 import asyncio
+import copy
 import gc
 import hashlib
 import io
@@ -51,7 +52,7 @@ def import_xdoctest():
 # trace injector: asynchronous faults at the k-th in-scope line event
 # ----------------------------------------------------------------------------
 
-PEER_SCOPE = {'op', 'emit', 'emitop', 'emitnoeol', 'abg', 'deco', '_emit_text', 'say', 'aop', '_write', 'point', 'names', 'modglobal',
+PEER_SCOPE = {'op', 'emit', 'emitop', 'emitnoeol', 'abg', 'deco', '_emit_text', 'sayval', 'say', 'aop', '_write', 'point', 'names', 'modglobal',
               '__aenter__', '__aexit__', '__anext__', '_raise_via'}
 
 
@@ -695,7 +696,7 @@ def run_op(op, idx):
         if dt is None:
             return {'missing': op['dt']}
         for k_, v_ in op.get('config', {}).items():
-            dt.config[k_] = v_
+            dt.config[k_] = copy.deepcopy(v_)       # xdoctest never gets to share an object with the scenario
         if op.get('mode'):
             dt.mode = op['mode']
         try:
@@ -714,7 +715,7 @@ def run_op(op, idx):
         config = doctest_example.DoctestConfig()
         config['colored'] = False
         for k_, v_ in op.get('config', {}).items():
-            config[k_] = v_
+            config[k_] = copy.deepcopy(v_)
         rs = xd.doctest_module(abspath_of(op['target']), command=op.get('command', 'all'), argv=[],
                                style=op.get('style', 'auto'), verbose=op.get('verbose', 0), config=config,
                                durations=op.get('durations'), analysis=op.get('analysis', 'auto'))
